@@ -102,8 +102,11 @@ def _open_mode(call: ast.Call) -> str | None:
 def rule_r1_r2_r3(ctx):
     repo = ctx.repo
     f = repo.func(f"{ED}:_write_external_data")
-    dest_param = "file_path"
-    ctx.require(dest_param in f.params, "_write_external_data(file_path) parameter not found")
+    # the destination is the path parameter of the function: by role (the one parameter declared as a path), not by spelling
+    path_params = [a.arg for a in f.node.args.posonlyargs + f.node.args.args + f.node.args.kwonlyargs
+                   if a.annotation is not None and "PathLike" in norm(a.annotation)]
+    ctx.require(len(path_params) == 1, f"_write_external_data: destination path parameter not found ({path_params})")
+    dest_param = path_params[0]
     t, of = _taint(f, [], [dest_param])
     cfg = CFG(f.node)
     # R1 (i) writer constructed on a temp path
@@ -111,8 +114,11 @@ def rule_r1_r2_r3(ctx):
     ctx.require(len(ctors) == 1, "_ExternalDataWriter construction not found in _write_external_data")
     wcls = repo.cls(f"{ED}:_ExternalDataWriter")
     init = wcls.methods["__init__"]
-    idx = init.params.index("file_path") - 1
-    arg = ctors[0].args[idx] if idx < len(ctors[0].args) else next((k.value for k in ctors[0].keywords if k.arg == "file_path"), None)
+    init_path = [a.arg for a in init.node.args.posonlyargs + init.node.args.args + init.node.args.kwonlyargs
+                 if a.annotation is not None and "PathLike" in norm(a.annotation)]
+    ctx.require(len(init_path) == 1, "_ExternalDataWriter.__init__: file path parameter not found")
+    idx = init.params.index(init_path[0]) - 1
+    arg = ctors[0].args[idx] if idx < len(ctors[0].args) else next((k.value for k in ctors[0].keywords if k.arg == init_path[0]), None)
     k = of(arg) if arg is not None else set()
     ctx.check("R1", f"writer file path {norm(arg) if arg is not None else '?'} is temp-derived", k == {"T"}, f, ctors[0],
               "the data writer is pointed at a path that is (or may be) the destination itself: a failure mid-write "
@@ -154,7 +160,7 @@ def rule_r1_r2_r3(ctx):
         return
     # (iii) inside the writer class every open uses self._file_path, which only __init__ binds to the ctor argument
     binds = [n for n in own_nodes(init.node) if isinstance(n, ast.Assign) and norm(n.targets[0]) == "self._file_path"]
-    ok = len(binds) == 1 and norm(binds[0].value) == "file_path"
+    ok = len(binds) == 1 and norm(binds[0].value) == init_path[0]
     others = [fn.local for fn in wcls.methods.values() if fn is not init and any(
         isinstance(n, (ast.Assign, ast.AugAssign)) and "self._file_path" in norm(n.targets[0] if isinstance(n, ast.Assign) else n.target)
         for n in own_nodes(fn.node))]
